@@ -19,6 +19,7 @@ import json
 import os
 import signal
 import struct
+import threading
 import traceback
 from typing import Any
 from typing import Dict
@@ -34,6 +35,7 @@ class GoldenError(Exception):
 _REQ_W: Optional[int] = None
 _RES_R: Optional[int] = None
 _ZPID: Optional[int] = None
+_PIPE_LOCK = threading.Lock()
 _CACHE: Dict[str, Any] = {}
 _NEW: Dict[str, Any] = {}
 STATS = {"requests": 0, "forks": 0}
@@ -135,11 +137,12 @@ def ask(spec: Dict[str, Any]) -> Any:
         raise GoldenError("golden zygote not started in this process (or its parent)")
     STATS["requests"] += 1
     assert _REQ_W is not None and _RES_R is not None
-    _write_msg(_REQ_W, key.encode())
-    try:
-        res = json.loads(_read_msg(_RES_R))
-    except EOFError as exc:
-        raise GoldenError("golden zygote died") from exc
+    with _PIPE_LOCK:  # one request/response at a time, whatever thread asks
+        _write_msg(_REQ_W, key.encode())
+        try:
+            res = json.loads(_read_msg(_RES_R))
+        except EOFError as exc:
+            raise GoldenError("golden zygote died") from exc
     if not res["ok"]:
         raise GoldenError("golden run failed in the harness:\n" + res["error"])
     if len(_CACHE) > 100_000:
